@@ -1,1 +1,138 @@
-pub fn main(_args: &[String]) -> i32 { eprintln!("conn: not built yet"); 2 }
+//! `conn` mode: the real `Connection<S>` over a scripted in-memory stream.
+//! stdin lines:  `R <seg-hex> <seg-hex> ...`  read frames until something that is not a frame comes back
+//!               `W <frame>`                  write one frame, print the bytes that reached the stream
+use std::{
+    collections::VecDeque,
+    io::{BufRead, Write},
+    pin::Pin,
+    sync::{Arc, Mutex},
+    task::{Context, Poll},
+};
+
+use bitcask::net::{connection::Connection, frame, Error};
+use tokio::io::{AsyncRead, AsyncWrite, ReadBuf};
+
+use crate::util::{hex, quiet_panics, read_frame, show_frame, unhex};
+
+/// Delivers exactly the scripted segments (split further only if the caller's buffer is smaller),
+/// then EOF; collects everything written.
+pub struct Scripted {
+    segs: VecDeque<Vec<u8>>,
+    pub written: Arc<Mutex<Vec<u8>>>,
+}
+
+impl Scripted {
+    pub fn new(segs: Vec<Vec<u8>>) -> Self {
+        Self {
+            segs: segs.into_iter().filter(|s| !s.is_empty()).collect(),
+            written: Arc::new(Mutex::new(Vec::new())),
+        }
+    }
+}
+
+impl AsyncRead for Scripted {
+    fn poll_read(mut self: Pin<&mut Self>, _cx: &mut Context<'_>, buf: &mut ReadBuf<'_>) -> Poll<std::io::Result<()>> {
+        if let Some(mut seg) = self.segs.pop_front() {
+            let n = std::cmp::min(seg.len(), buf.remaining());
+            buf.put_slice(&seg[..n]);
+            if n < seg.len() {
+                let rest = seg.split_off(n);
+                self.segs.push_front(rest);
+            }
+        }
+        Poll::Ready(Ok(()))
+    }
+}
+
+impl AsyncWrite for Scripted {
+    fn poll_write(self: Pin<&mut Self>, _cx: &mut Context<'_>, buf: &[u8]) -> Poll<std::io::Result<usize>> {
+        self.written.lock().unwrap().extend_from_slice(buf);
+        Poll::Ready(Ok(buf.len()))
+    }
+    fn poll_flush(self: Pin<&mut Self>, _cx: &mut Context<'_>) -> Poll<std::io::Result<()>> {
+        Poll::Ready(Ok(()))
+    }
+    fn poll_shutdown(self: Pin<&mut Self>, _cx: &mut Context<'_>) -> Poll<std::io::Result<()>> {
+        Poll::Ready(Ok(()))
+    }
+}
+
+fn ferr_name(e: &frame::Error) -> &'static str {
+    match e {
+        frame::Error::Incomplete => "Incomplete",
+        frame::Error::BadEncoding => "BadEncoding",
+        frame::Error::NotInteger(_) => "NotInteger",
+        frame::Error::NotUtf8(_) => "NotUtf8",
+    }
+}
+
+async fn do_read(segs: Vec<Vec<u8>>) -> String {
+    let mut conn = Connection::new(Scripted::new(segs));
+    let mut out: Vec<String> = Vec::new();
+    loop {
+        match conn.read_frame().await {
+            Ok(Some(f)) => out.push(format!("frame:{}", show_frame(&f))),
+            Ok(None) => {
+                out.push("clean".into());
+                break;
+            }
+            Err(Error::Frame(e)) => {
+                out.push(format!("err:{}", ferr_name(&e)));
+                break;
+            }
+            Err(Error::Io(e)) if e.kind() == std::io::ErrorKind::ConnectionReset => {
+                out.push("reset".into());
+                break;
+            }
+            Err(e) => {
+                out.push(format!("othererr:{}", e));
+                break;
+            }
+        }
+    }
+    out.join(";")
+}
+
+async fn do_write(f: frame::Frame) -> String {
+    let s = Scripted::new(vec![]);
+    let w = s.written.clone();
+    let mut conn = Connection::new(s);
+    match conn.write_frame(&f).await {
+        Ok(()) => format!("ok:{}", hex(&w.lock().unwrap())),
+        Err(e) => format!("err:{}", e),
+    }
+}
+
+pub fn main(_args: &[String]) -> i32 {
+    quiet_panics();
+    let h = std::thread::Builder::new()
+        .stack_size(2 * 1024 * 1024)
+        .spawn(|| {
+            let rt = tokio::runtime::Builder::new_current_thread().enable_all().build().unwrap();
+            let stdin = std::io::stdin();
+            let stdout = std::io::stdout();
+            let mut out = stdout.lock();
+            for line in stdin.lock().lines() {
+                let line = line.unwrap();
+                let mut it = line.split_whitespace();
+                let res = match it.next() {
+                    Some("R") => {
+                        let segs: Vec<Vec<u8>> = it.map(unhex).collect();
+                        std::panic::catch_unwind(std::panic::AssertUnwindSafe(|| rt.block_on(do_read(segs))))
+                            .unwrap_or_else(|_| "panic".into())
+                    }
+                    Some("W") => {
+                        let f = read_frame(it.next().unwrap_or("N"));
+                        std::panic::catch_unwind(std::panic::AssertUnwindSafe(|| rt.block_on(do_write(f))))
+                            .unwrap_or_else(|_| "panic".into())
+                    }
+                    _ => "badline".into(),
+                };
+                writeln!(out, "{}", res).unwrap();
+                out.flush().unwrap();
+            }
+        })
+        .unwrap();
+    h.join().unwrap();
+    0
+}
